@@ -227,12 +227,19 @@ func scenario(s shape, target string, full bool, q, t vrt.Bounds) *vrt.Scenario 
 				}
 				id, st, err = w.Create(wfName(s), vars)
 				if err != nil && strings.Contains(err.Error(), "workflow deployment timed out") {
-					launchFault := false
-					for _, a := range assign {
-						launchFault = launchFault || (target == "DEPLOY" && a != coresim.OK) // a slow launch is not "running at once"
+					// the recorded roster race: every role the core still calls inactive belongs to a task whose launch
+					// outcome gets it running in time (the master did report TASK_RUNNING for it)
+					race := true
+					msg := err.Error()
+					if i := strings.Index(msg, "inactive roles:"); i >= 0 && target == "DEPLOY" {
+						for k, a := range assign {
+							if strings.Contains(msg[i:], fmt.Sprintf(".t%d", k)) && !okClass(a) {
+								race = false
+							}
+						}
 					}
-					if !launchFault {
-						deployRace = err.Error()
+					if race {
+						deployRace = msg
 					}
 				}
 			} else {
